@@ -1,17 +1,24 @@
 """Shared analysis of ctap2::Response::serialize (framing of a CTAP2 response): used by
-C02 (status byte + body wiring, empty-map collapse) and C17 (fits completely or one-byte error)."""
+C02 (status byte + body wiring, empty-map collapse) and C17 (fits completely or one-byte error).
+
+The function is summarised by sym.Sym (helpers such as an extracted `encode_body(&self, data)`
+are expanded at the call site): per path the response variant, the encoder call and its known
+outcome, every write to the status byte, and the ordered operations on the buffer."""
 from . import hirq as H
-from . import tables as T
-from .pathcond import Analysis, effect_paths, TooManyPaths
+from . import sym as S
 
 FN = "ctap2::Response::serialize"
 RESIZE = "heapless::vec::Vec::<T, N>::resize_default"
+RESIZE_ANY = ("heapless::vec::Vec::<T, N>::resize_default", "heapless::vec::Vec::<T, N>::resize")
+TRUNCATE = "heapless::vec::Vec::<T, N>::truncate"
 CAPACITY = "heapless::vec::Vec::<T, N>::capacity"
 SPLIT = "core::slice::<impl [T]>::split_first_mut"
 CBOR_SER = ("cbor_smol::cbor_serialize", "cbor_smol::ser::cbor_serialize")
 OK = "core::result::Result::Ok"
-RES_OK = "core::result::Result::<T, E>::ok"
-UNWRAPS = ("core::option::Option::<T>::unwrap", "core::option::Option::<T>::expect", "core::result::Result::<T, E>::unwrap", "core::result::Result::<T, E>::expect")
+LEN = "core::slice::<impl [T]>::len"
+READ_ONLY = ("len", "capacity", "is_empty", "is_full", "as_slice", "as_ref", "iter", "first", "last", "get")
+BUF = ("param", "buffer")
+ME = ("param", "self")
 
 
 def parent_map(root):
@@ -20,6 +27,25 @@ def parent_map(root):
         for c in H.children(n):
             pm[id(c)] = n
     return pm
+
+
+def rooted_in_buffer(t):
+    """t is the buffer or a place obtained from it (split_first_mut / unwrap / tuple projections)"""
+    for _ in range(12):
+        if t == BUF:
+            return True
+        if t[0] in ("tproj", "proj", "field", "index", "sproj", "smid"):
+            t = t[1]
+        elif t[0] == "call" and t[2] and t[1].split("::")[-1] in ("split_first_mut", "split_at_mut", "as_mut_slice", "deref_mut", "as_mut", "split_first", "unwrap"):
+            t = t[2][0]
+        else:
+            return False
+    return False
+
+
+class PathView:
+    """one path of Response::serialize, decoded"""
+    pass
 
 
 class Model:
@@ -31,130 +57,91 @@ def build(F):
     fn = F.fn(FN)
     if fn is None:
         return None, [("anchor", "anchor missing: ctap2::Response::serialize")]
+    names = [n for p in fn["params"] for n, _ in H.pat_bindings(p)]
+    if "buffer" not in names or "self" not in names:
+        return None, [("anchor", "Response::serialize no longer takes (&self, buffer)")]
     m = Model()
     m.fn = fn
-    m.A = Analysis(fn)
-    pm = parent_map(fn["body"])
-    m.pm = pm
-    params = {n: i for p in fn["params"] for n, i in H.pat_bindings(p)}
-    buf_id = params.get("buffer")
-    problems = []
-    if buf_id is None or "self" not in params:
-        return None, [("anchor", "Response::serialize no longer takes (&self, buffer)")]
 
-    def on_buffer(n):
-        return n.get("k") == "mcall" and H.local_id(n["recv"]) == buf_id
-
-    status_ids = set()
-    data_ids = set()
-    # (status, data) = buffer.split_first_mut().unwrap()
-    for pid, (pat, init) in m.A.pat_of.items():
-        i = H.strip_block(init)
-        inner = i
-        if i.get("k") == "mcall" and i.get("callee") in UNWRAPS:
-            inner = H.strip_block(i["recv"])
-        if inner.get("k") == "mcall" and inner.get("callee") == SPLIT and H.local_id(inner["recv"]) == buf_id:
-            if pat.get("k") == "tuple" and len(pat["pats"]) == 2:
-                b0, b1 = H.pat_bindings(pat["pats"][0]), H.pat_bindings(pat["pats"][1])
-                if len(b0) == 1 and len(b1) == 1:
-                    status_ids.add(b0[0][1])
-                    data_ids.add(b1[0][1])
-                    m.split_unwrap = i if i is not inner else None
-                    m.split_node = inner
-    if len(status_ids) != 1:
-        return None, [("split", "the status byte and the body are no longer obtained from `buffer.split_first_mut()`")]
-    m.status_id = next(iter(status_ids))
-    m.data_id = next(iter(data_ids))
-
-    def is_effect(n):
-        k = n.get("k")
-        if on_buffer(n):
+    def is_effect(callee, args, node, st):
+        if callee in CBOR_SER:
             return True
-        if k in ("call", "mcall") and n.get("callee") in CBOR_SER:
-            return True
-        if k in ("assign", "assignop"):
-            tgt = H.strip(n["l"])
-            return H.local_id(tgt) in (m.status_id, m.data_id, buf_id)
-        if k in ("call", "mcall"):
-            # anything else that receives the buffer, the status byte or the body
-            for a in H.call_args(n):
-                if H.local_id(a) in (buf_id, m.status_id, m.data_id) and n.get("callee") not in (CAPACITY,):
-                    return True
-        return False
+        if not any(rooted_in_buffer(a) for a in args if isinstance(a, tuple)):
+            return False
+        if callee not in ("<assign>", "<closure>", "<indirect>") and (callee or "").split("::")[-1] in READ_ONLY and args and args[0] == BUF:
+            return False
+        return True
 
+    m.sym = S.Sym(F, fn, is_effect=is_effect)
     try:
-        m.paths = effect_paths(fn["body"], is_effect)
-    except TooManyPaths:
+        paths = m.sym.run()
+    except S.TooManyPaths:
         return None, [("paths", "Response::serialize has too many control-flow paths to enumerate")]
-    m.buf_id = buf_id
-    m.self_id = params["self"]
-    # the dispatch match over self
-    m.self_match = None
-    for n in H.walk(fn["body"]):
-        if n.get("k") == "match" and n.get("src") == "normal" and H.local_id(n["scrut"]) == m.self_id:
-            m.self_match = n
-    if m.self_match is None:
-        problems.append(("self-match", "no `match self` over the response variants"))
+    m.views = []
+    problems = []
+    split_terms = set()
+    for p in paths:
+        v = PathView()
+        v.p = p
+        v.effects = list(p.effects)
+        v.variant = (m.sym.lookup(p, ME) or "?").split("::")[-1]
+        v.split = [e for e in p.effects if e.callee == SPLIT and e.args and e.args[0] == BUF]
+        for e in v.split:
+            split_terms.add(e.term)
+        v.status_place = v.data_place = None
+        if len(v.split) == 1:
+            some = m.sym.proj(v.split[0].term, S.SOME, 0)
+            v.status_place, v.data_place = m.sym.tproj(some, 0), m.sym.tproj(some, 1)
+        v.encoders = [e for e in p.effects if e.callee in CBOR_SER]
+        v.enc = v.encoders[0] if len(v.encoders) == 1 else None
+        v.enc_known = m.sym.lookup(p, v.enc.term) if v.enc is not None else None
+        v.assigns = [e for e in p.effects if e.kind == "assign"]
+        v.status_writes = [e for e in v.assigns if e.args[0] == v.status_place]
+        v.buf_ops = [e for e in p.effects if e.kind == "call" and e.args and e.args[0] == BUF]
+        v.panics = bool(p.done and p.done[0] == "panic")
+        v.kind = classify(m, v)
+        m.views.append(v)
+    if len(split_terms) != 1:
+        return None, [("split", "the status byte and the body are no longer obtained from one `buffer.split_first_mut()`")]
+    m.paths = [v for v in m.views if not v.panics]
+    m.panic_paths = [v for v in m.views if v.panics]
     return m, problems
 
 
-def classify(m, p):
-    """('ok-a0' | 'ok' | 'err' | None, slice binding id)"""
-    A = m.A
-    ok_pol = None
-    slice_id = None
-    a0 = None
-    for c in p.conds:
-        if c.kind == "let" and H.pat_ctor(c.pat) == OK:
-            init = A.subst(c.init) if c.init is not None else {}
-            if init is m.self_match or (init.get("k") == "match" and H.local_id(init["scrut"]) == m.self_id):
-                ok_pol = c.pol
-                b = H.pat_bindings(c.pat)
-                slice_id = b[0][1] if b else None
-        elif c.kind == "match" and H.pat_ctor(c.pat) in (OK, "core::result::Result::Err"):
-            sc = A.subst(c.scrut)
-            if sc is m.self_match or (sc.get("k") == "match" and H.local_id(sc["scrut"]) == m.self_id):
-                ok_pol = H.pat_ctor(c.pat) == OK
-                b = H.pat_bindings(c.pat)
-                slice_id = b[0][1] if (b and ok_pol) else slice_id
-        elif c.kind == "match" and H.pat_is_catchall(c.pat) and c.prior and any(H.pat_ctor(q) == OK for q in c.prior):
-            sc = A.subst(c.scrut)
-            if sc is m.self_match or (sc.get("k") == "match" and H.local_id(sc["scrut"]) == m.self_id):
-                ok_pol = False
-        elif c.kind == "expr":
-            e = H.strip_block(c.e)
-            if e.get("k") == "binary" and e["op"] in ("==", "!="):
-                l, r = H.strip(e["l"]), H.strip(e["r"])
-                for x, y in ((l, r), (r, l)):
-                    if slice_id is not None and H.local_id(x) == slice_id and y.get("k") == "array" and [H.lit(z) for z in y["elems"]] == [0xA0]:
-                        a0 = (c.pol == (e["op"] == "=="))
-    if ok_pol is None:
-        return None, None
-    if ok_pol is False:
-        return "err", None
-    if a0 is None:
-        return "ok?", slice_id
-    return ("ok-a0" if a0 else "ok"), slice_id
-
-
-def variant_of(m, p):
-    for c in p.conds:
-        if c.kind == "match" and c.scrut is m.self_match["scrut"]:
-            pats = c.pat["pats"] if c.pat.get("k") == "or" else [c.pat]
-            return [(H.pat_ctor(q) or "").split("::")[-1] for q in pats], c.pat
-    return None, None
+def classify(m, v):
+    """'ok-a0' | 'ok' | 'ok-empty' | 'err' | None : what the encoder produced on this path"""
+    p = v.p
+    if v.enc is None:
+        return "ok-empty" if not v.encoders else None
+    k = v.enc_known
+    if k == S.ERR:
+        return "err"
+    if k != S.OK:
+        return None
+    body = m.sym.proj(v.enc.term, S.OK, 0)
+    a0 = ("array", (("lit", 0xA0),))
+    for a in p.atoms:
+        if a[0] == "eq" and {a[1], a[2]} == {body, a0}:
+            return "ok-a0" if a[3] else "ok"
+    return "ok?"
 
 
 def discarded(m, node):
     """the Result of `node` is explicitly thrown away: `.ok();` as a statement or `let _ = ..;`"""
-    par = m.pm.get(id(node))
+    pm = getattr(m, "_pm", None)
+    if pm is None:
+        pm = {}
+        for g in [m.fn] + [m.sym.F.fn(q) for q in m.sym.inlined if m.sym.F.fn(q) is not None]:
+            pm.update(parent_map(g["body"]))
+        m._pm = pm
+    par = pm.get(id(node))
     if par is None:
         return False
-    if par.get("k") == "mcall" and par.get("callee") == RES_OK and par["recv"] is node:
-        gp = m.pm.get(id(par))
+    if par.get("k") == "mcall" and par.get("callee") == "core::result::Result::<T, E>::ok" and par["recv"] is node:
+        gp = pm.get(id(par))
         return gp is not None and gp.get("k") == "semi"
     if par.get("k") == "let" and par["pat"].get("k") == "wild":
         return True
     if par.get("k") == "semi":
-        return True  # `#[must_use]` would warn, but the value is dropped
+        return True
     return False
